@@ -158,7 +158,7 @@ Proof.
   intros Hg Hr Hret Hk Ha. destruct (none_survive P s Hr Hret) as [Hctx _].
   unfold kid_alive in Ha. destruct (k_pc k) eqn:Ep; try discriminate Ha.
   - destruct (launched_child_can_run P s i k Hk Ep) as (s' & Hs). eauto 6.
-  - destruct (cancelled_child_can_exit P s i k Hctx Hk Ep (good_children_spec P _ Hg)) as (s' & Hs). eauto 7.
+  - destruct (cancelled_good_child_can_exit P s i k Hctx Hk Ep (good_children_spec P _ Hg)) as (s' & Hs). eauto 7.
   - exists (LKSend i). cbn [step]. rewrite Hk, Ep.
     destruct e as [x|]; [destruct (is_cancel x); [eauto 6|]|eauto 6].
     destruct (Nat.ltb (length (errq s)) (errcap s)); eauto 6.
